@@ -115,7 +115,7 @@ def check(ctx):
     # D: free-running threads (detector only)
     th = [dict(c, reps=3) for c in sc if c["mb"] == 1 and c["ep"] is None][: (6 if q else 40)]
     ctx.run(th, "run_threads", batch=1, rule="D: free-running threaded scheduler x3 vs synchronous (race detector, sampling)", space="D threads")
-    ctx.assumptions.append("tasks are atomic under the controlled scheduler; in-task pre-emption is argued via the mutation monitor")
+    ctx.assumptions.append("space C treats tasks as atomic; a single pre-emption of one task by one complete other task at abTEM call granularity is explored by space P; several pre-emptions, more than two tasks in flight and pre-emption inside NumPy / FFTW / numba code are covered only by the mutation monitor and the sampling threaded pass D")
 
 
 # --------------------------------------------------------------------------------------------- A
